@@ -158,7 +158,7 @@ bool Model::removeUnits(const UnitsPtr &units)
     bool status = false;
     auto result = pFunc()->findUnits(units);
     if (result != pFunc()->mUnits.end()) {
-        units->pFunc()->removeParent();
+        (*result)->pFunc()->removeParent();
         pFunc()->mUnits.erase(result);
         status = true;
     }
